@@ -63,7 +63,7 @@ def point(label):
 
 class Job:
     __slots__ = ('fn', 'args', 'fut', 'jid', 'go', 'parked', 'done', 'label', 'name', 'running', 'skipped',
-                 'waited', 'longpark')
+                 'waited', 'longpark', 'park_secs', 'release_at')
 
     def __init__(self, fn, args, fut, jid):
         self.fn, self.args, self.fut, self.jid = fn, args, fut, jid
@@ -74,7 +74,9 @@ class Job:
         self.running = False
         self.label = 'start'
         self.waited = 0
-        self.longpark = False
+        self.longpark = False     # True: held wherever it is (bounded by decisions); 'job-end': held once, work done,
+        self.park_secs = 20.0     # result undelivered, for park_secs virtual seconds
+        self.release_at = None
         name = getattr(fn, '__qualname__', None) or getattr(fn, '__name__', None) or repr(fn)
         self.name = name.split('.<locals>.')[-1]
 
@@ -223,9 +225,15 @@ class VLoop(asyncio.SelectorEventLoop):
         if self.chooser is not None:
             return self.chooser(self, jobs, busy)
         def lp(j):
-            # a long-parked job is held only where its work is done but its result not yet delivered ("job-end")
-            return j.longpark is True or (j.longpark == 'job-end' and j.label == 'job-end')
-        overdue = [j for j in jobs if j.waited >= (2000 if lp(j) else self.max_park)]
+            if j.longpark is True:
+                return True
+            if j.longpark == 'job-end' and j.label == 'job-end':
+                # held where its work is done but its result not yet delivered, for a bounded virtual time
+                if j.release_at is None:
+                    j.release_at = self.vt + j.park_secs
+                return self.vt < j.release_at
+            return False
+        overdue = [j for j in jobs if (j.waited >= 2000 if j.longpark is True else (not lp(j) and j.waited >= self.max_park))]
         if overdue:
             return overdue[0]
         pol = self.policy
